@@ -1,6 +1,8 @@
 //@unit sm2_exchange
-//@serves C15
+//@serves C14 C15
 //@source gm-sm2/src/exchange.rs
+//@assume #[derive(Clone)] on Sm2PrivateKey returns an equal value (shim_clone_sk, external_body whose body is the replaced call)
+//@rewrite-text sk.clone() ==> shim_clone_sk(sk)
 //@assume shim_id_or_default / shim_ne32: default-ID selection and 32-byte array inequality (external_body shims whose body is the replaced std expression)
 //@rewrite-text id.unwrap_or_else(|| DEFAULT_ID) ==> shim_id_or_default(id)
 //@rewrite-text rhs_id.unwrap_or_else(|| DEFAULT_ID) ==> shim_id_or_default(rhs_id)
@@ -13,6 +15,9 @@
 //@include-spec sm2_rand
 //@include-spec sm2_key
 //@section spec
+// derived Clone of a plain-data struct returns an equal value (Verus has no spec for non-Copy derives)
+#[verifier::external_body]
+fn shim_clone_sk(sk: &Sm2PrivateKey) -> (r: Sm2PrivateKey) ensures r == *sk { sk.clone() }
 #[verifier::external_body]
 fn shim_ne32(a: &[u8; 32], b: &[u8; 32]) -> (r: bool) ensures r == !(a@ =~= b@) { a != b }
 // ---------------- GB/T 32918.3: key agreement, w = 127 ----------------
@@ -25,6 +30,59 @@ pub open spec fn ex_point(t: int, p_peer: Pt, r_peer: Pt) -> Pt { g_smul(t, g_ad
 pub open spec fn ex_key(v: Pt, za: Seq<u8>, zb: Seq<u8>, klen: nat) -> Seq<u8> { s_kdf(xy_bytes(v) + za + zb, klen) }
 pub open spec fn ex_inner(v: Pt, za: Seq<u8>, zb: Seq<u8>, ra: Pt, rb: Pt) -> Seq<u8> { sm3_spec(be_bytes(pt_x(v), 32) + za + zb + xy_bytes(ra) + xy_bytes(rb)) }
 pub open spec fn ex_conf(tag: u8, v: Pt, inner: Seq<u8>) -> Seq<u8> { sm3_spec(seq![tag] + be_bytes(pt_y(v), 32) + inner) }
+pub proof fn ex_lemma_lens(q: Pt)
+    ensures be_bytes(pt_x(q), 32).len() == 32, be_bytes(pt_y(q), 32).len() == 32, xy_bytes(q).len() == 64
+{ lemma_be_bytes_len(pt_x(q), 32); lemma_be_bytes_len(pt_y(q), 32); }
+pub proof fn ex_lemma_smul_inf(k: int) ensures g_smul(k, Pt::Inf) == Pt::Inf decreases k
+{ if k > 0 { ex_lemma_smul_inf(k - 1); } }
+// limb-wise AND with 2^127 - 1 is reduction modulo 2^127
+pub proof fn ex_lemma_and127(x: Seq<u64>, m: Seq<u64>, a: Seq<u64>)
+    requires x.len() == 4, m.len() == 4, a.len() == 4, val4(m) == pow127() - 1,
+        forall|k: int| 0 <= k < 4 ==> a[k] == x[k] & m[k],
+    ensures val4(a) == val4(x) % pow127(), 0 <= val4(a) < pow127(),
+{
+    let mm = seq![0xffff_ffff_ffff_ffffu64, 0x7fff_ffff_ffff_ffffu64, 0u64, 0u64];
+    assert(val4(mm) == pow127() - 1);
+    lemma_val4_inj(m, mm);
+    assert(m[0] == mm[0] && m[1] == mm[1] && m[2] == mm[2] && m[3] == mm[3]);
+    let x0 = x[0]; let x1 = x[1]; let x2 = x[2]; let x3 = x[3];
+    assert(x0 & 0xffff_ffff_ffff_ffffu64 == x0) by(bit_vector);
+    assert(x1 & 0x7fff_ffff_ffff_ffffu64 == x1 % 0x8000_0000_0000_0000u64) by(bit_vector);
+    assert(x2 & 0u64 == 0u64) by(bit_vector);
+    assert(x3 & 0u64 == 0u64) by(bit_vector);
+    assert(a[0] == x0 && a[1] == x1 % 0x8000_0000_0000_0000u64 && a[2] == 0 && a[3] == 0);
+    let lo = (x1 % 0x8000_0000_0000_0000u64) as int;
+    let q1 = (x1 / 0x8000_0000_0000_0000u64) as int;
+    assert(x1 as int == 0x8000_0000_0000_0000int * q1 + lo && 0 <= lo < 0x8000_0000_0000_0000int);
+    let q = q1 + 2 * (x2 as int + 0x1_0000_0000_0000_0000int * (x3 as int));
+    assert(val4(a) == x0 as int + 0x1_0000_0000_0000_0000int * lo);
+    assert(0 <= val4(a) < pow127());
+    assert(val4(x) == pow127() * q + val4(a));
+    lemma_fundamental_div_mod_converse(val4(x), pow127(), q, val4(a));
+}
+// quantified forms (single-term triggers): usable for the unnamed intermediate results of u256_sub / u256_bits_and / u256_add
+pub proof fn ex_lemma_and127_q(x: Seq<u64>)
+    requires x.len() == 4
+    ensures
+        forall|m: Seq<u64>| m.len() == 4 && #[trigger] val4(m) == pow127() - 1
+            ==> m[0] == 0xffff_ffff_ffff_ffffu64 && m[1] == 0x7fff_ffff_ffff_ffffu64 && m[2] == 0u64 && m[3] == 0u64,
+        forall|a: Seq<u64>| a.len() == 4 && a[0] == x[0] & 0xffff_ffff_ffff_ffffu64 && a[1] == x[1] & 0x7fff_ffff_ffff_ffffu64
+            && a[2] == x[2] & 0u64 && a[3] == x[3] & 0u64
+            ==> #[trigger] val4(a) == val4(x) % pow127() && 0 <= val4(a) < pow127(),
+        forall|a: Seq<u64>| a.len() == 4 ==> 0 <= #[trigger] val4(a) < r256(),
+{
+    let mm = seq![0xffff_ffff_ffff_ffffu64, 0x7fff_ffff_ffff_ffffu64, 0u64, 0u64];
+    assert(val4(mm) == pow127() - 1);
+    assert forall|m: Seq<u64>| m.len() == 4 && #[trigger] val4(m) == pow127() - 1
+        implies m[0] == 0xffff_ffff_ffff_ffffu64 && m[1] == 0x7fff_ffff_ffff_ffffu64 && m[2] == 0u64 && m[3] == 0u64 by {
+        lemma_val4_inj(m, mm);
+        assert(m[0] == mm[0] && m[1] == mm[1] && m[2] == mm[2] && m[3] == mm[3]);
+    }
+    assert forall|a: Seq<u64>| a.len() == 4 && a[0] == x[0] & 0xffff_ffff_ffff_ffffu64 && a[1] == x[1] & 0x7fff_ffff_ffff_ffffu64
+            && a[2] == x[2] & 0u64 && a[3] == x[3] & 0u64
+        implies #[trigger] val4(a) == val4(x) % pow127() && 0 <= val4(a) < pow127() by { ex_lemma_and127(x, mm, a); }
+    assert forall|a: Seq<u64>| a.len() == 4 implies 0 <= #[trigger] val4(a) < r256() by { lemma_val4_bounds(a); }
+}
 spec fn ex_ok(e: Exchange) -> bool { sk_ok(e.sk) && pk_ok(e.rhs_pk) && 1 <= e.klen < 0x1_0000_0000 }
 //@section code gm-sm2/src/u256.rs
 type U256 = [u64; 4];
@@ -32,6 +90,11 @@ const SM2_ONE: U256 = [1, 0, 0, 0];
 //@stub sm2_limbs u256_add
 //@stub sm2_limbs u256_sub
 //@stub sm2_limbs u256_bits_and
+//@section spec local
+proof fn ex_lemma_consts() ensures val4(SM2_ONE@) == 1
+{
+    assert(val4(SM2_ONE@) == 1) by(compute);
+}
 //@section code gm-sm2/src/error.rs
 type Sm2Result<T> = Result<T, Sm2Error>;
 #[derive(PartialEq)]
@@ -109,7 +172,6 @@ struct Exchange {
     rhs_pk: Sm2PublicKey,
 }
 impl Exchange {
-    #[verifier::external_body]
     fn new(
         klen: usize,
         id: Option<&str>,
@@ -132,7 +194,7 @@ impl Exchange {
         Ok(Exchange {
             klen,
             za: compute_za(id, &pk.point)?,
-            sk: sk.clone(),
+            sk: shim_clone_sk(sk),
             v: None,
             r: None,
             r_point: None,
@@ -146,7 +208,6 @@ impl Exchange {
     
     
     
-    #[verifier::external_body]
     fn exchange_1(&mut self) -> (res: Sm2Result<Point>)
         ensures res is Ok, valid(res->Ok_0), final(self).r_point == Some(res->Ok_0),
             final(self).r is Some && csprng(final(self).r->Some_0@) && 1 <= val4(final(self).r->Some_0@) < N(),
@@ -156,6 +217,7 @@ impl Exchange {
     {
         let r = random_u256();
         let r_point = g_mul(&r);
+        proof { ax_g_order(val4(r@)); lemma_small_mod(val4(r@) as nat, N() as nat); }
         self.r = Some(r);
         self.r_point = Some(r_point);
         Ok(r_point)
@@ -163,8 +225,7 @@ impl Exchange {
 
     
     
-    #[verifier::external_body]
-    fn exchange_2(&mut self, ra_point: &Point) -> (res: Sm2Result<(Point, [u8; 32])>)
+        fn exchange_2(&mut self, ra_point: &Point) -> (res: Sm2Result<(Point, [u8; 32])>)
         requires ex_ok(*old(self)), wf(*ra_point), val4(ra_point.z@) != 0
         ensures
             !on_curve(abs(*ra_point)) ==> res is Err,
@@ -181,6 +242,10 @@ impl Exchange {
         if !ra_point.is_valid() {
             return Err(Sm2Error::CheckPointErr);
         }
+        proof { ex_lemma_consts(); lemma_params(); lemma_g_on_curve(); }
+        let ghost gd = val4(self.sk.d@);
+        let ghost gra = abs(*ra_point);
+        let ghost gpk = abs(self.rhs_pk.point);
         
         let pow: [u64; 4] = [
             0x0000000000000000,
@@ -191,12 +256,24 @@ impl Exchange {
 
         let r2 = random_u256();
         let r2_point = g_mul(&r2);
+        let ghost gr = val4(r2@);
+        let ghost grb = abs(r2_point);
+        proof { ax_g_order(gr); lemma_small_mod(gr as nat, N() as nat); assert(val4(r2_point.z@) != 0); }
         self.r = Some(r2);
         self.r_point = Some(r2_point);
         let r2_point_affine = r2_point.to_affine_point();
         let x2 = fp_from_mont(&r2_point_affine.x);
         let y2 = fp_from_mont(&r2_point_affine.y);
+        proof {
+            assert(val4(x2@) == pt_x(grb) && val4(y2@) == pt_y(grb));
+            assert(val4(pow@) == pow127());
+            assert(2 * pow127() < N()) by(compute);
+        }
         let x2_b = u256_add(&pow, &u256_bits_and(&x2, &u256_sub(&pow, &SM2_ONE).0)).0;
+        proof {
+            assert(val4(x2_b@) == xbar(pt_x(grb))) by { ex_lemma_and127_q(x2@); }
+            lemma_mod_bound(gr * val4(x2_b@), N());
+        }
         let t2 = fn_add(
             &self.sk.d,
             &fn_mul(
@@ -208,13 +285,25 @@ impl Exchange {
         let ra_point_affine = ra_point.to_affine_point();
         let x1 = fp_from_mont(&ra_point_affine.x);
         let y1 = fp_from_mont(&ra_point_affine.y);
+        proof {
+            assert(val4(t2@) == ex_t(gd, gr, grb));
+            lemma_mod_bound(gd + (gr * xbar(pt_x(grb))) % N(), N());
+            assert(val4(x1@) == pt_x(gra) && val4(y1@) == pt_y(gra));
+        }
         let x1_a = u256_add(&pow, &u256_bits_and(&x1, &u256_sub(&pow, &SM2_ONE).0)).0;
+        proof { assert(val4(x1_a@) == xbar(pt_x(gra))) by { ex_lemma_and127_q(x1@); } }
 
         let p = self
             .rhs_pk
             .value()
             .point_add(&ra_point.scalar_mul(&x1_a));
+        proof { assert(valid(p)); }
         let v_point = p.scalar_mul(&t2);
+        let ghost gv = abs(v_point);
+        proof {
+            if val4(p.z@) == 0 { ex_lemma_smul_inf(val4(t2@)); assert(gv == Pt::Inf); }
+            assert(gv != Pt::Inf ==> gv == ex_point(ex_t(gd, gr, grb), gpk, gra));
+        }
         if v_point.is_zero() {
             return Err(Sm2Error::ZeroPoint);
         }
@@ -230,6 +319,10 @@ impl Exchange {
         prepend.extend_from_slice(&self.rhs_za); 
         prepend.extend_from_slice(&self.za); 
 
+        proof {
+            ex_lemma_lens(gv); ex_lemma_lens(gra); ex_lemma_lens(grb);
+            assert(prepend@ =~= xy_bytes(gv) + self.rhs_za@ + self.za@);
+        }
         let k_b = kdf(&prepend, self.klen);
         self.k = Some(k_b);
 
@@ -241,18 +334,24 @@ impl Exchange {
         temp.extend_from_slice(&y1.to_byte_be());
         temp.extend_from_slice(&x2.to_byte_be());
         temp.extend_from_slice(&y2.to_byte_be());
+        proof {
+            assert(temp@ =~= be_bytes(pt_x(gv), 32) + self.rhs_za@ + self.za@ + xy_bytes(gra) + xy_bytes(grb));
+            lemma_sm3_len(temp@);
+        }
 
         let mut prepend: Vec<u8> = Vec::new();
         prepend.push(0x02_u8);
         prepend.extend_from_slice(&yv_bytes);
         prepend.extend_from_slice(&sm3_hash(&temp));
+        proof {
+            assert(prepend@ =~= seq![2u8] + be_bytes(pt_y(gv), 32) + ex_inner(gv, self.rhs_za@, self.za@, gra, grb));
+        }
         Ok((r2_point, sm3_hash(&prepend)))
     }
 
     
     
-    #[verifier::external_body]
-    fn exchange_3(&mut self, rb_point: &Point, sb: [u8; 32]) -> (res: Sm2Result<[u8; 32]>)
+        fn exchange_3(&mut self, rb_point: &Point, sb: [u8; 32]) -> (res: Sm2Result<[u8; 32]>)
         requires ex_ok(*old(self)), wf(*rb_point), val4(rb_point.z@) != 0,
             old(self).r is Some, 1 <= val4(old(self).r->Some_0@) < N(), old(self).r_point is Some, valid(old(self).r_point->Some_0),
             abs(old(self).r_point->Some_0) == g_smul(val4(old(self).r->Some_0@), G()),
@@ -267,6 +366,15 @@ impl Exchange {
         if !rb_point.is_valid() {
             return Err(Sm2Error::CheckPointErr);
         }
+        let ghost gd = val4(self.sk.d@);
+        let ghost gr = val4(self.r->Some_0@);
+        let ghost gra = abs(self.r_point->Some_0);
+        let ghost grb = abs(*rb_point);
+        let ghost gpk = abs(self.rhs_pk.point);
+        proof {
+            ex_lemma_consts(); lemma_params(); lemma_g_on_curve();
+            ax_g_order(gr); lemma_small_mod(gr as nat, N() as nat); assert(val4(self.r_point->Some_0.z@) != 0);
+        }
         
         let pow: [u64; 4] = [
             0x0000000000000000,
@@ -278,7 +386,16 @@ impl Exchange {
         let ra_point_affine = self.r_point.unwrap().to_affine_point();
         let x1 = fp_from_mont(&ra_point_affine.x);
         let y1 = fp_from_mont(&ra_point_affine.y);
+        proof {
+            assert(val4(x1@) == pt_x(gra) && val4(y1@) == pt_y(gra));
+            assert(val4(pow@) == pow127());
+            assert(2 * pow127() < N()) by(compute);
+        }
         let x1_a = u256_add(&pow, &u256_bits_and(&x1, &u256_sub(&pow, &SM2_ONE).0)).0;
+        proof {
+            assert(val4(x1_a@) == xbar(pt_x(gra))) by { ex_lemma_and127_q(x1@); }
+            lemma_mod_bound(gr * val4(x1_a@), N());
+        }
         let t_a = fn_add(
             &self.sk.d,
             &fn_mul(
@@ -290,12 +407,24 @@ impl Exchange {
         let rb_point_affine = rb_point.to_affine_point();
         let x2 = fp_from_mont(&rb_point_affine.x);
         let y2 = fp_from_mont(&rb_point_affine.y);
+        proof {
+            assert(val4(t_a@) == ex_t(gd, gr, gra));
+            lemma_mod_bound(gd + (gr * xbar(pt_x(gra))) % N(), N());
+            assert(val4(x2@) == pt_x(grb) && val4(y2@) == pt_y(grb));
+        }
         let x2_b = u256_add(&pow, &u256_bits_and(&x2, &u256_sub(&pow, &SM2_ONE).0)).0;
+        proof { assert(val4(x2_b@) == xbar(pt_x(grb))) by { ex_lemma_and127_q(x2@); } }
         let p = self
             .rhs_pk
             .value()
             .point_add(&rb_point.scalar_mul(&x2_b));
+        proof { assert(valid(p)); }
         let u_point = p.scalar_mul(&t_a);
+        let ghost gu = abs(u_point);
+        proof {
+            if val4(p.z@) == 0 { ex_lemma_smul_inf(val4(t_a@)); assert(gu == Pt::Inf); }
+            assert(gu != Pt::Inf ==> gu == ex_point(ex_t(gd, gr, gra), gpk, grb));
+        }
         if u_point.is_zero() {
             return Err(Sm2Error::ZeroPoint);
         }
@@ -310,6 +439,10 @@ impl Exchange {
         prepend.extend_from_slice(&self.za);
         prepend.extend_from_slice(&self.rhs_za);
 
+        proof {
+            ex_lemma_lens(gu); ex_lemma_lens(gra); ex_lemma_lens(grb);
+            assert(prepend@ =~= xy_bytes(gu) + self.za@ + self.rhs_za@);
+        }
         let k_a = kdf(&prepend, self.klen);
         self.k = Some(k_a);
 
@@ -321,12 +454,19 @@ impl Exchange {
         temp.extend_from_slice(&y1.to_byte_be());
         temp.extend_from_slice(&x2.to_byte_be());
         temp.extend_from_slice(&y2.to_byte_be());
+        proof {
+            assert(temp@ =~= be_bytes(pt_x(gu), 32) + self.za@ + self.rhs_za@ + xy_bytes(gra) + xy_bytes(grb));
+            lemma_sm3_len(temp@);
+        }
         let temp_hash = sm3_hash(&temp);
 
         let mut prepend: Vec<u8> = Vec::new();
         prepend.push(0x02_u8);
         prepend.extend_from_slice(&yu_bytes);
         prepend.extend_from_slice(&temp_hash);
+        proof {
+            assert(prepend@ =~= seq![2u8] + be_bytes(pt_y(gu), 32) + ex_inner(gu, self.za@, self.rhs_za@, gra, grb));
+        }
 
         let s1 = sm3_hash(&prepend);
         if shim_ne32(&s1, &sb) {
@@ -337,11 +477,13 @@ impl Exchange {
         prepend.push(0x03_u8);
         prepend.extend_from_slice(&yu_bytes);
         prepend.extend_from_slice(&temp_hash);
+        proof {
+            assert(prepend@ =~= seq![3u8] + be_bytes(pt_y(gu), 32) + ex_inner(gu, self.za@, self.rhs_za@, gra, grb));
+        }
         Ok(sm3_hash(&prepend))
     }
 
     
-    #[verifier::external_body]
     fn exchange_4(&self, sa: [u8; 32], ra_point: &Point) -> (res: Sm2Result<bool>)
         requires wf(*ra_point), val4(ra_point.z@) != 0, self.r_point is Some, valid(self.r_point->Some_0), abs(self.r_point->Some_0) != Pt::Inf,
             self.v is Some, valid(self.v->Some_0), abs(self.v->Some_0) != Pt::Inf,
@@ -368,11 +510,22 @@ impl Exchange {
         temp.extend_from_slice(&y1.to_byte_be());
         temp.extend_from_slice(&x2.to_byte_be());
         temp.extend_from_slice(&y2.to_byte_be());
+        let ghost gv = abs(self.v->Some_0);
+        let ghost gra = abs(*ra_point);
+        let ghost grb = abs(self.r_point->Some_0);
+        proof {
+            ex_lemma_lens(gv); ex_lemma_lens(gra); ex_lemma_lens(grb);
+            assert(temp@ =~= be_bytes(pt_x(gv), 32) + self.rhs_za@ + self.za@ + xy_bytes(gra) + xy_bytes(grb));
+            lemma_sm3_len(temp@);
+        }
 
         let mut prepend: Vec<u8> = Vec::new();
         prepend.push(0x03_u8);
         prepend.extend_from_slice(&yv.to_byte_be());
         prepend.extend_from_slice(&sm3_hash(&temp));
+        proof {
+            assert(prepend@ =~= seq![3u8] + be_bytes(pt_y(gv), 32) + ex_inner(gv, self.rhs_za@, self.za@, gra, grb));
+        }
         let s_2 = sm3_hash(&prepend);
         Ok(!shim_ne32(&s_2, &sa))
     }
